@@ -7,6 +7,8 @@ printed), 1 = VIOLATION (real code contradicted the specification / a property i
 """
 import json
 import os
+import threading
+import concurrent.futures
 import re
 import shutil
 import subprocess
@@ -89,6 +91,9 @@ def parse_tlc(out, res):
         res.coverage["%s@%s:%s" % (m.group(1), m.group(3), m.group(2))] = int(m.group(5))
     # counterexample states: collect values of variable `l` if present (trace specs)
     res.errtrace = re.findall(r"^/\\ l = (\d+)", out, re.M)
+
+
+_mdir_lock = threading.Lock()
 
 
 class Ctx:
@@ -182,12 +187,13 @@ class Ctx:
     def tlc(self, module, cfg, workers=16, files=None, timeout=900, simulate=None, depth=None,
             coverage=False, dfs=False, extra=None, count=True):
         """Runs TLC on spec/<module>.tla with spec/<cfg> inside a private copy of spec/."""
-        self._mdir += 1
-        wd = os.path.join(self.scratch, "tlc%d" % self._mdir)
+        with _mdir_lock:
+            self._mdir += 1
+            wd = os.path.join(self.scratch, "tlc%d" % self._mdir)
         os.makedirs(wd)
         for f in os.listdir(SPEC):
             if f.endswith(".tla") or f.endswith(".cfg"):
-                shutil.copyfile(os.path.join(SPEC, f), os.path.join(wd, f))
+                os.symlink(os.path.join(SPEC, f), os.path.join(wd, f))
         for name, src in (files or {}).items():
             dst = os.path.join(wd, name)
             if os.path.abspath(src) != os.path.abspath(dst):
@@ -239,8 +245,9 @@ class Ctx:
             else:
                 res.kind = "error"
         if count:
-            self.states += res.distinct
-            self.transitions += res.generated
+            with _mdir_lock:
+                self.states += res.distinct
+                self.transitions += res.generated
         self.tlc_cmds.append(res.cmd)
         self.log("tlc %s/%s -> %s (exit %s) generated=%d distinct=%d depth=%d in %.1fs" % (
             module, cfg, res.kind, res.exit, res.generated, res.distinct, res.depth, res.wall))
@@ -434,32 +441,30 @@ def run_check(prop, fn, level="model_checking"):
     sys.exit(rc)
 
 
-def validate_all(ctx, module, cfg, trace_path, describe=None, max_rejections=8, dfs=True, timeout=900):
-    """Validates a file of concatenated traces; every rejected sub-trace is reported (as a
-    violation or a known finding) and removed, and the rest is validated again, so one
-    rejection does not hide the remaining traces.  Returns number of accepted sub-traces."""
-    lines = read_lines(trace_path)
-    traces = split_traces(lines)
-    total = len(traces)
-    rejected = 0
-    accepted = 0
+_val_lock = threading.Lock()
+_val_seq = [0]
+
+
+def _validate_list(ctx, module, cfg, traces, describe, dfs, timeout, budget, first_only=False):
+    """Sequential core of validate_all on a list of sub-traces. Returns (good, rejected, rest): rest is the
+    unexamined tail when first_only stopped after the first rejection (or the budget ran out)."""
     good = []
-    rounds = 0
-    while True:
-        rounds += 1
-        cur = os.path.join(ctx.scratch, "val-%s-%d.ndjson" % (module, rounds))
+    rejected = 0
+    while traces:
+        with _val_lock:
+            _val_seq[0] += 1
+            k = _val_seq[0]
+        cur = os.path.join(ctx.scratch, "val-%s-%d.ndjson" % (module, k))
         with open(cur, "w") as f:
             for t in traces:
                 f.write("".join(t))
-        if not traces:
-            break
         ok, info = ctx.validate_trace(module, cfg, cur, dfs=dfs, timeout=timeout)
         if ok:
-            break
+            good.extend(traces)
+            return good, rejected, []
         line = info.get("line")
         if not line:
             raise Unresolved("trace rejected but no line reported (%s)" % info)
-        # locate the sub-trace
         n = 0
         idx = None
         for i, t in enumerate(traces):
@@ -473,7 +478,6 @@ def validate_all(ctx, module, cfg, trace_path, describe=None, max_rejections=8, 
             n = sum(len(t) for t in traces[:-1])
         # sub-traces are independent (every one starts with a Reset): the ones before the rejected
         # sub-trace are accepted, only the ones after it are validated again
-        accepted += idx
         good.extend(traces[:idx])
         bad = traces[idx]
         traces = traces[idx + 1:]
@@ -491,14 +495,41 @@ def validate_all(ctx, module, cfg, trace_path, describe=None, max_rejections=8, 
         detail = "trace spec %s %s at line %d of the sub-trace (event %s)" % (
             module, "violates invariant %s" % info.get("violated") if info.get("kind") == "invariant" else "cannot take the step",
             rel, json.dumps(evline)[:300])
-        ctx.violation(sig, detail, replay_lines=bad[: rel + 2])
+        with _val_lock:
+            ctx.violation(sig, detail, replay_lines=bad if info.get("kind") == "invariant" else bad[: rel + 2])
         rejected += 1
-        if rejected >= max_rejections:
-            ctx.log("too many rejected traces; stopping validation")
-            break
-    ctx.traces += (accepted + len(traces)) if rejected < max_rejections else accepted
-    if rejected < max_rejections:
-        good.extend(traces)
+        if rejected >= budget or first_only:
+            return good, rejected, traces
+    return good, rejected, []
+
+
+def validate_all(ctx, module, cfg, trace_path, describe=None, max_rejections=8, dfs=True, timeout=900, parallel=8):
+    """Validates a file of concatenated traces; every rejected sub-trace is reported (as a
+    violation or a known finding) and removed, and the rest is validated again, so one
+    rejection does not hide the remaining traces.  After the first rejection the remainder is
+    split into chunks that are validated concurrently (sub-traces are independent).
+    Returns number of accepted sub-traces."""
+    traces = split_traces(read_lines(trace_path))
+    total = len(traces)
+    good, rejected, rest = _validate_list(ctx, module, cfg, traces, describe, dfs, timeout, max_rejections, first_only=True)
+    exhausted = False
+    if rest and rejected < max_rejections:
+        n = max(1, min(parallel, len(rest) // 4 or 1))
+        size = (len(rest) + n - 1) // n
+        chunks = [rest[i:i + size] for i in range(0, len(rest), size)]
+        budget = max(1, (max_rejections - rejected + len(chunks) - 1) // len(chunks))
+        with concurrent.futures.ThreadPoolExecutor(max_workers=len(chunks)) as ex:
+            results = list(ex.map(lambda c: _validate_list(ctx, module, cfg, c, describe, dfs, timeout, budget), chunks))
+        for g, r, left in results:
+            good.extend(g)
+            rejected += r
+            if left:
+                exhausted = True
+    elif rest:
+        exhausted = True
+    if exhausted:
+        ctx.log("too many rejected traces; validation stopped early")
+    ctx.traces += len(good)
     # the accepted sub-traces, for binding self-tests and coverage runs
     ctx.accepted_path = os.path.join(ctx.scratch, "acc-%s-%d.ndjson" % (module, len(ctx.legs)))
     with open(ctx.accepted_path, "w") as f:
